@@ -498,7 +498,11 @@ class Parser:
             self.raise_syntax_error_known_location("imaginary number required in complex literal", number)
         return value
 
-    def check_fstring_conversion(self, name: TokenInfo) -> int:
+    def check_fstring_conversion(self, name: TokenInfo, mark: TokenInfo) -> int:
+        if mark.end != name.start:
+            self.raise_syntax_error_known_range(
+                "f-string: conversion type must come right after the exclamanation mark", mark, name
+            )
         s = name.string
         if len(s) > 1 or s not in ("s", "r", "a"):
             self.raise_syntax_error_known_location(
@@ -618,17 +622,30 @@ class Parser:
         if not conversion:
             conversion = b"r"[0] if debug and format_spec is None else -1
         node = ast.FormattedValue(value=value, conversion=conversion, format_spec=format_spec, **locs)
+        if self._fstring_field_depth(node) > 3:  # noqa: PLR2004 (CPython's MAX_EXPR_NESTING)
+            self.raise_syntax_error_known_location("f-string: expressions nested too deeply", node)
         if debug:
-            # from just after '{' up to and including '=' and the blanks that follow it
+            # from just after '{' up to and including '=' and the blank space that follows it (line ends included)
             (l1, c1), (l2, c2) = (locs["lineno"], locs["col_offset"] + 1), debug.end
+            while l2 <= locs["end_lineno"]:
+                line = self._tokenizer.get_lines([l2])[0]
+                while line[c2 : c2 + 1] in (" ", "\t", "\f") and line[c2 : c2 + 1]:
+                    c2 += 1
+                if line[c2:] not in ("\n", "\r\n") or l2 == locs["end_lineno"]:
+                    break
+                l2, c2 = l2 + 1, 0
             lines = self._tokenizer.get_lines(list(range(l1, l2 + 1)))
-            while lines[-1][c2 : c2 + 1] in (" ", "\t", "\f") and lines[-1][c2 : c2 + 1]:
-                c2 += 1
             lines[-1] = lines[-1][:c2]
             lines[0] = lines[0][c1:]
             text = ast.Constant(value="".join(lines), lineno=l1, col_offset=c1, end_lineno=l2, end_col_offset=c2)
             node.debug_text = text  # type: ignore[attr-defined]  # consumed by _fstring_values
         return node
+
+    def _fstring_field_depth(self, node: ast.FormattedValue) -> int:
+        """How deep replacement fields nest through format specs, this one included."""
+        spec = node.format_spec
+        inner = [self._fstring_field_depth(v) for v in getattr(spec, "values", ()) if isinstance(v, ast.FormattedValue)]
+        return 1 + max(inner, default=0)
 
     _FSTRING_ESCAPE = re.compile(
         r"\\(?:N\{[^}]*\}|x[0-9a-fA-F]{2}|u[0-9a-fA-F]{4}|U[0-9a-fA-F]{8}|[0-7]{1,3}|\r?\n|.)", re.DOTALL
